@@ -560,6 +560,23 @@ def roundtrips(trace, R, model, fs, k, res):
         return
     if 'w' not in [m for p, m in fs.opened if p == '/sim/out2.penman']:
         res.violate('roundtrip', 'dump-path-not-opened-for-writing', opened=fs.opened)
+    if trace.get('run', 0) % 8 == 1 or trace.get('real_dump'):
+        # the same on the real file system: the named file exists already and is longer than the dump
+        d_ = tempfile.mkdtemp(prefix='vsim-c09-')
+        try:
+            p_ = os.path.join(d_, 'out.penman')
+            with open(p_, 'wb') as fh_:
+                fh_.write(b'(stale / content :of (an / earlier-dump))\n' * 40 + b1)
+            _, exc = _call(lambda: penman.dump(R, p_, model=model, indent=indent, compact=compact, encoding='utf-8'))
+            with open(p_, 'rb') as fh_:
+                b3 = fh_.read()
+            res.hit('step.real_files')
+            if exc or b3 != b1:
+                res.violate('roundtrip', 'dump-to-existing-real-file-differs', error=digest.canon_exc(exc) if exc else None,
+                            expected_bytes=len(b1), got_bytes=len(b3), tail=b3[-120:].decode('utf-8', 'replace'))
+                return
+        finally:
+            shutil.rmtree(d_, ignore_errors=True)
     res.event('dump_bytes', digest.sha(b1.hex()), digest.sha(b2.hex()))
     if b1 != b2:
         res.violate('roundtrip', 'dump-path-vs-fileobject-bytes-differ', a=b1.decode('utf-8', 'replace'),
